@@ -780,6 +780,63 @@ example : decide [⟨.hidden, ['x', '.', '*']⟩] ⟨['m', '.', '_', 'a'], ['_',
 
 /-! ### the whole decision against the property's statement -/
 
+/-- The default as the manual words it: PRIVATE for a name that starts with an underscore and is
+not a dunder, a dunder being what the manual's own pattern `__*__` ("PRIVATE:**.__*__ makes all
+dunder methods private") describes: two underscores, anything, two underscores — at least four
+characters.  `__` and `___` are therefore not dunders. -/
+def manualDefault (name : List Char) : Level :=
+  if startsWith ['_'] name &&
+      !(Decidable.decide (4 ≤ name.length) && startsWith ['_', '_'] name && endsWith ['_', '_'] name) then .priv
+  else .pub
+
+/-- … and, since c8d85b0, PRIVATE for a module named `__main__` -/
+def manualDefaultOf (ob : Obj) : Level :=
+  if manualDefault ob.name = .priv then .priv
+  else if ob.isModule && ob.name = mainName then .priv
+  else .pub
+
+/-- the code's dunder test (`startswith('__') and endswith('__')`) agrees with the manual's except on
+the two names whose leading and trailing double underscore are the same characters -/
+theorem defaultLevel_eq_manual (name : List Char) (h2 : name ≠ ['_', '_']) (h3 : name ≠ ['_', '_', '_']) :
+    defaultLevel name = manualDefault name := by
+  unfold defaultLevel manualDefault
+  by_cases hl : 4 ≤ name.length
+  · simp [hl]
+  · have hs : (startsWith ['_', '_'] name && endsWith ['_', '_'] name) = false := by
+      rcases name with _ | ⟨a, _ | ⟨b, _ | ⟨c, _ | ⟨d, r⟩⟩⟩⟩
+      · simp [startsWith]
+      · simp [startsWith]
+      · by_cases ha : a = '_'
+        · by_cases hb : b = '_'
+          · subst ha hb; exact absurd rfl h2
+          · have hb' : ¬ '_' = b := fun e => hb e.symm
+            simp [startsWith, ha, hb, hb']
+        · have ha' : ¬ '_' = a := fun e => ha e.symm
+          simp [startsWith, ha, ha']
+      · by_cases ha : a = '_'
+        · by_cases hb : b = '_'
+          · by_cases hc : c = '_'
+            · subst ha hb hc; exact absurd rfl h3
+            · have hc' : ¬ '_' = c := fun e => hc e.symm
+              simp [startsWith, endsWith, ha, hb, hc, hc']
+          · have hb' : ¬ '_' = b := fun e => hb e.symm
+            simp [startsWith, ha, hb, hb']
+        · have ha' : ¬ '_' = a := fun e => ha e.symm
+          simp [startsWith, ha, ha']
+      · simp at hl
+    simp [hl, hs]
+
+theorem defaultOf_eq_manual (ob : Obj) (h2 : ob.name ≠ ['_', '_']) (h3 : ob.name ≠ ['_', '_', '_']) :
+    defaultOf ob = manualDefaultOf ob := by
+  simp only [defaultOf, manualDefaultOf, defaultLevel_eq_manual ob.name h2 h3]
+
+/-- `__` and `___`: PUBLIC in the code, PRIVATE by the manual (finding
+`default:underscore-only-name-public`) -/
+theorem default_counterexample :
+    defaultLevel ['_', '_'] = .pub ∧ manualDefault ['_', '_'] = .priv ∧
+    defaultLevel ['_', '_', '_'] = .pub ∧ manualDefault ['_', '_', '_'] = .priv ∧
+    defaultLevel ['_', '_', '_', '_'] = manualDefault ['_', '_', '_', '_'] := by decide
+
 /-- The property's statement, written on its own: the last rule whose text is the qualified name;
 failing that the last rule whose pattern matches (in the manual's sense); failing that the
 default (`defaultOf`: underscore rule, modules named `__main__`). -/
@@ -789,7 +846,7 @@ def specLevel (rules : List Rule) (ob : Obj) : Level :=
   | none =>
     match (rules.filter (fun r => Glob.spec r.pat ob.fullName)).getLast? with
     | some r => r.level
-    | none => defaultOf ob
+    | none => manualDefaultOf ob
 
 theorem findExact_eq (rs : List Rule) (fn : List Char) :
     findExact rs fn = ((rs.filter (fun r => r.pat = fn)).head?).map (·.level) := by
@@ -817,16 +874,20 @@ theorem findPattern_eq (rs : List Rule) (fn : List Char)
     | false => simp [findPattern, hq, hs, ih']
 
 /-
-Full statement, false of the current code for rule lists written into `options.privacy` by hand:
-    ∀ rules ob, ob.kindNone = false → (privacyClass rules [] ob).1 = .ok (specLevel rules ob)
-It fails when a rule's pattern holds a backwards range and is reached (`re.error` escapes from
-`System.privacyClass`).  (Until c8d85b0 it also failed for a module named `__main__`:
-`main_module_counterexample_before_c8d85b0`.)
+Full statement, false of the current code:
+    ∀ rules ob, (privacyClass rules [] ob).1 = .ok (specLevel rules ob)
+It fails (a) for rule lists written into `options.privacy` by hand when a rule's pattern holds a
+backwards range and is reached (`precedence_counterexample`); (b) for an object whose `kind` is
+`None` — HIDDEN before name and rules are looked at (`precedence_counterexample_kindNone`, findings
+`kind-none-hidden:*`); (c) for the names `__` and `___` when no rule applies
+(`precedence_counterexample_underscores`, finding `default:underscore-only-name-public`).
+(Until c8d85b0 it also failed for a module named `__main__`: `main_module_counterexample_before_c8d85b0`.)
 -/
 /-- **Precedence, as a whole.**  With rule patterns that `re` accepts the privacy class computed is
-the one the property states, for every object that has a kind — modules named `__main__` included. -/
+the one the property states, for every object that has a kind and is not called `__` or `___`. -/
 theorem precedence_partial (rules : List Rule) (ob : Obj)
-    (hw : ∀ x ∈ rules, Glob.wellFormed x.pat = true) (hk : ob.kindNone = false) :
+    (hw : ∀ x ∈ rules, Glob.wellFormed x.pat = true) (hk : ob.kindNone = false)
+    (h2 : ob.name ≠ ['_', '_']) (h3 : ob.name ≠ ['_', '_', '_']) :
     (privacyClass rules [] ob).1 = .ok (specLevel rules ob) := by
   have hw' : ∀ x ∈ rules.reverse, Glob.wellFormed x.pat = true :=
     fun x hx => hw x (List.mem_reverse.mp hx)
@@ -837,7 +898,18 @@ theorem precedence_partial (rules : List Rule) (ob : Obj)
   | none =>
     cases (rules.filter (fun r => Glob.spec r.pat ob.fullName)).getLast? with
     | some r => simp
-    | none => simp
+    | none => simp [defaultOf_eq_manual ob h2 h3]
+
+/-- (b) an assigned, documented module variable whose `kind` stayed `None` (a `@type` field created it
+first): HIDDEN although `PUBLIC:mod.x` names it exactly -/
+theorem precedence_counterexample_kindNone :
+    (privacyClass [⟨.pub, ['m', '.', 'x']⟩] [] ⟨['m', '.', 'x'], ['x'], false, true, true⟩).1 = .ok .hidden ∧
+    specLevel [⟨.pub, ['m', '.', 'x']⟩] ⟨['m', '.', 'x'], ['x'], false, true, true⟩ = .pub := by decide
+
+/-- (c) `mod.__` without any rule: PUBLIC, the manual says PRIVATE -/
+theorem precedence_counterexample_underscores :
+    (privacyClass [] [] ⟨['m', '.', '_', '_'], ['_', '_'], false, false, true⟩).1 = .ok .pub ∧
+    specLevel [] ⟨['m', '.', '_', '_'], ['_', '_'], false, false, true⟩ = .priv := by decide
 
 theorem precedence_counterexample :
     (privacyClass [⟨.hidden, ['[', 'b', '-', 'a', ']']⟩] [] ⟨['a'], ['a'], false, false, true⟩).1
@@ -908,13 +980,17 @@ theorem cli_rules_wellFormed : ∀ (vs : List (List Char)) (rules : List Rule),
         · exact parseRule_wellFormed v x hv
         · exact cli_rules_wellFormed vs rs hvs x hx
 
-/-- **Precedence for every `--privacy` list the option parser accepts**, at full strength: no
-hypothesis on the patterns, no excluded object (objects without a kind are not documented at all:
-`kind is None` → HIDDEN before any rule). -/
-theorem precedence_cli (vs : List (List Char)) (rules : List Rule) (ob : Obj)
-    (h : parseRules vs = .ok rules) (hk : ob.kindNone = false) :
+/-
+Full statement, false of the current code (see `precedence_partial`, cases (b) and (c)):
+    parseRules vs = .ok rules → (privacyClass rules [] ob).1 = .ok (specLevel rules ob)
+-/
+/-- **Precedence for every `--privacy` list the option parser accepts**: no hypothesis on the
+patterns; excluded are objects whose `kind` is `None` and the names `__`, `___` (open findings). -/
+theorem precedence_cli_partial (vs : List (List Char)) (rules : List Rule) (ob : Obj)
+    (h : parseRules vs = .ok rules) (hk : ob.kindNone = false)
+    (h2 : ob.name ≠ ['_', '_']) (h3 : ob.name ≠ ['_', '_', '_']) :
     (privacyClass rules [] ob).1 = .ok (specLevel rules ob) :=
-  precedence_partial rules ob (cli_rules_wellFormed vs rules h) hk
+  precedence_partial rules ob (cli_rules_wellFormed vs rules h) hk h2 h3
 
 /-- **With a `--privacy` list the option parser accepts, `privacyClass` never raises** — for any
 object and any cache state (the `re.error` of the former finding is unreachable from the CLI). -/
@@ -1565,10 +1641,11 @@ theorem effective_file_only (cfg : List (List Char)) : parseEffective [] cfg = p
   simp [parseEffective, effectiveValues]
 
 /-- precedence for the rule list a run is really given (file and command line combined) -/
-theorem precedence_effective (cli cfg : List (List Char)) (rules : List Rule) (ob : Obj)
-    (h : parseEffective cli cfg = .ok rules) (hk : ob.kindNone = false) :
+theorem precedence_effective_partial (cli cfg : List (List Char)) (rules : List Rule) (ob : Obj)
+    (h : parseEffective cli cfg = .ok rules) (hk : ob.kindNone = false)
+    (h2 : ob.name ≠ ['_', '_']) (h3 : ob.name ≠ ['_', '_', '_']) :
     (privacyClass rules [] ob).1 = .ok (specLevel rules ob) :=
-  precedence_cli _ rules ob h hk
+  precedence_cli_partial _ rules ob h hk h2 h3
 
 /-! ### hidden containers -/
 
